@@ -4,7 +4,7 @@
 From Coq Require Import ZArith Znumtheory List Bool Lia.
 From RV.Model Require Import Base Word Limbs GcdMatrix.
 From RV.Model Require Gcd.
-From RV.Proofs Require Import BaseFacts PfC01 PfGcdUint PfGcd PfGcdMatrix PfGcdInv.
+From RV.Proofs Require Import BaseFacts PfC01 PfGcdUint PfGcd PfGcdMatrix PfGcdInv PfGcdExact.
 From RV.Run Require Import RunC12.
 Import ListNotations.
 Local Open Scope Z_scope.
@@ -187,10 +187,10 @@ Section WithDiv.
     0 <= bits -> canon bits a -> canon bits b ->
     spec_ext bits a b (omap ext_toks (Gcd.gcd_extended bits a b)) = true.
   Proof.
-    intros H Ha Hb. destruct (gcd_extended_spec HD HL bits a b H Ha Hb) as ([[[g x] y] sign] & -> & Hg & Cx & Cy & Hc).
+    intros H Ha Hb. destruct (gcd_extended_exact HD bits a b H Ha Hb) as ([[[g x] y] sign] & -> & Hg & Cx & Cy & Hc).
     cbn [omap obind ext_toks spec_ext]. subst g. rewrite list_eqb_refl_Z.
-    apply canonb_iff in Cx, Cy. rewrite Cx, Cy. cbn [andb].
-    rewrite !modp2_spec by lia. apply Z.eqb_eq. exact Hc.
+    apply canonb_iff in Cx, Cy. rewrite Cx, Cy. cbn [andb]. cbv zeta.
+    rewrite Hc, !Z.eqb_refl. reflexivity.
   Qed.
 
   Lemma inv_ok bits n m :
